@@ -645,7 +645,7 @@ class Log(registering.StoriedRegistrar):
             self.lasts.clear()
             for tag, fields in self.fields.items():  # list of fields by tag
                 loggee = self.loggees[tag]
-                lasts = [(key, loggee[key]) for key in fields if key in loggee]
+                lasts = [(key, copy.copy(loggee[key])) for key in fields if key in loggee]
                 self.lasts[tag] = storing.Data(lasts)  # in both loggee and fields
 
         self.buildHeader()
@@ -882,12 +882,12 @@ class Log(registering.StoriedRegistrar):
                     if not hasattr(last, field):  # was not present in prepare
                         if field in loggee:  # now present
                             change = True
-                            setattr(last, field, loggee[field])
+                            setattr(last, field, copy.copy(loggee[field]))
 
                     else:  # was present in prepare
                         if loggee[field] != getattr(last, field):
                             change = True
-                            setattr(last, field, loggee[field])
+                            setattr(last, field, copy.copy(loggee[field]))
 
             except AttributeError as ex: #
                 console.terse("Warning: Log {0}, missing field"
